@@ -32,6 +32,7 @@ fn main() {
         "arith-replay" => xv::arith::cmd_replay(rest),
         "arith-record" => xv::arith::cmd_record(rest),
         "coll-replay" => xv::coll::cmd_replay(rest),
+        "tags-record" => xv::tags::cmd_record(rest),
         other => {
             eprintln!("unknown subcommand {}", other);
             2
